@@ -86,20 +86,8 @@ def linear_cases(ctx):
 
 
 def run_case_files(ctx, prefix, header, lines, cases, describe, shard=40):
-    items = []
-    for s in range(0, len(lines), shard):
-        src = (header + "Definition results : list bool := [\n" + ";\n".join(lines[s:s + shard]) + "].\n"
-               "Eval vm_compute in (failing results).\n")
-        items.append((f"{prefix}_{s // shard}", src))
-    res = coqtool.coq_eval_many(ctx, items)
-    for si, (name, _) in enumerate(items):
-        ok, out = res[name]
-        m = re.search(r"=\s*\[([^\]]*)\]\s*:\s*list nat", out.replace("\n", " "))
-        if not ok or not m:
-            ctx.mismatch(f"{ctx.prop} correspondence: case file did not evaluate", {"file": name, "output": out[-1500:]})
-            continue
-        for i in [int(x) for x in re.findall(r"\d+", m.group(1))]:
-            describe(cases[si * shard + i])
+    from harness.coqcases import run_bool_cases
+    return run_bool_cases(ctx, prefix, header, lines, cases, describe, shard)
 
 
 HEADER = ("From Coq Require Import List Bool Arith ZArith.\nFrom QV Require Import McxModel CaseLib CaseLibMcx GenLib "
@@ -195,6 +183,8 @@ def primitives(ctx):
 def run(ctx):
     primitives(ctx)
     correspondence(ctx)
+    if ctx.skip_eval:
+        return
     try:
         from harness.props import c05_eval
     except ModuleNotFoundError:
